@@ -14,6 +14,12 @@ CLAIMED = {
         'the batched block layout equals the stand-alone answers, sizes match, single-property entry points agree, and the query writes only fresh memory. Bounded, not a proof.',
    note=TB + 'features are stubs painting uninterpreted values (real features are covered under C02); lists longer than the bound and grain counts above it are outside the claim.',
    technique='symbolic execution of clang LLVM IR + z3 (QF_BV/FP with uninterpreted non-linear FP ops), bounded request length', design='4/C01'),
+ 'C03': dict(
+   text='Bounded symbolic execution of World::properties (2D/3D, Cartesian and spherical) with 0..2 stub features: when no feature covers the point every slot is the documented background '
+        '(temperature equals Tp*exp(alpha*g*depth/cp) as an identity over the reals with exp uninterpreted; zeros and tag -1 exactly), for every request up to the bound and every point/depth '
+        'including zero and negative depths; with force surface temperature every temperature entry at depth 0 is the surface temperature whatever else is requested and whether or not a feature covers the point.',
+   note=TB + 'exact-real reading for the adiabat formula (rounding outside the claim); stub features; constants are symbolic members, their parsing is outside.',
+   technique='symbolic execution of clang LLVM IR + z3 (QF_NRA+UF for the adiabat, FP for the forced-temperature comparison), bounded request length', design='4/C03'),
 }
 NA_DEFAULT = 'check not built yet (work in progress; see DESIGN.md section 4 for the planned obligations)'
 NA = {
